@@ -27,8 +27,9 @@ CHECKS = {
 CHECKS['C05'] = dict(
     text='spec/MiniPy.tla gives the operational semantics of the converted Python subset (one TLC step = one CFG-granularity '
          'node); spec/CfgSound.tla monitors it against the graph exported from the real cfg.build. TLC explores ALL executions '
-         '(all branch-decision vectors, loop trips 0..2) of every control-flow skeleton that spec/MiniPyGen.tla derives up to '
-         'the size bound (quick: <=4 statements, thorough: <=5 plus nested functions) plus seeded random larger programs, and '
+         '(all branch-decision vectors, loop trips 0..2) of the control-flow skeletons that spec/MiniPyGen.tla derives (thorough: '
+         'every skeleton of <=4 statements and family enumerations up to 7; quick: a seeded sample of them) plus seeded random '
+         'programs (general, exception-, lambda- and closure-focused), and '
          'checks every executed transfer to be an edge, termination at exit/raise nodes, mirror links, single entry and the '
          'per-statement entry/exit sets against lexical ownership. Every explored execution is also replayed on CPython '
          '(model validation) in the same run.',
@@ -43,10 +44,12 @@ _MP_NOTE = ('Claims are exported by running the real analyses exactly as control
             'observed (visit_forward/visit_reverse wrapped). Outside the class, never judged: everything after an implicit '
             'exception or an exception crossing an activation boundary, steps while an exception propagates through finally. '
             'Bounded: loop trips <=2, <=10/12 decisions, <=60/80 steps per execution; names are simple identifiers.')
-_MP_TEXT = ('TLC explores ALL executions (every branch-decision vector, loop trips 0..2) of every control-flow skeleton derived by '
-            'spec/MiniPyGen.tla up to the size bound (quick <=4 statements + nested-function skeletons, thorough <=5) and of '
-            'seeded random larger programs, under the operational semantics spec/MiniPy.tla, which is validated against '
-            'CPython on every explored execution in the same run. ')
+_MP_TEXT = ('TLC explores ALL executions (every branch-decision vector, loop trips 0..2) of the control-flow skeletons derived by '
+            'spec/MiniPyGen.tla (thorough: every skeleton of <=4 statements, production families up to 7 statements, nested '
+            'functions; quick: a seeded sample) and of seeded random programs (general, exception-, lambda- and closure-focused; '
+            'lambdas called in place or stored, comprehensions, default values, decorators), under the operational semantics '
+            'spec/MiniPy.tla, which is validated against CPython on every explored execution in the same run. A monitor keeps '
+            'the first four distinct reports of an execution, so a known finding never hides another violation. ')
 CHECKS['C06'] = dict(
     text=_MP_TEXT + 'spec/ReachDef.tla carries a last-writer monitor: at every read the binding that produced the value must be '
          'among the DEFINITIONS the real analysis attached to that name occurrence, at every entry of if/for/while/try the '
@@ -97,8 +100,10 @@ CHECKS['C03'] = dict(
          'recorded probe trace against the contract (total verdict naming the violated law) together with the static clauses '
          '(tuple lengths, callback arities, nouts bounds, iterate_names).',
     note='Probes run before the real operator and restore the state they found; traces are de-duplicated by content. The '
-         'directive-content clause (opts carry exactly the user directives of that loop) is not yet generated. Program class '
-         'and bounds as C01.',
+         'directive clause compares the opts of every loop invocation with the set_loop_options directive the program places in '
+         'that loop (identified by the first tracer of its test / iterable). The "outputs first" clause is behavioural: the '
+         'functional backend of C02 keeps only the first nouts entries of a branch, so a misplaced output changes a result '
+         'there. Program class and bounds as C01.',
     technique='TLA+ contract state machine, trace validation by TLC of probe traces recorded from real generated code',
     design_ref='DESIGN.md sections 3.5 (OpContract), 5 (C03)', engine='tlc-opcontract')
 
@@ -110,10 +115,12 @@ CHECKS['C04'] = dict(
          'order in the recorded one. Statically, the generated code of every conversion (several option sets) is parsed and '
          'must contain no native if/while/for/break/continue/and/or/not/conditional expression and no native call outside '
          'ag__ scaffolding and with-item expressions.',
-    note='Contexts generated so far: loop/branch/try/except/finally/with bodies, nested defs, operands of other overloaded '
-         'expressions. Lambda bodies, comprehension elements, decorators and default values are not generated yet (the nested '
-         'IfExp defect noted in DESIGN section 8 is therefore not exercised yet). Executions on which C01 already diverges are '
-         'judged by C01 only.',
+    note='Contexts generated: loop/branch/try/except/finally/with bodies, nested defs, operands of other overloaded '
+         'expressions (including a conditional expression inside a conditional expression), bodies of lambdas called in place '
+         'and of lambdas stored and called later, comprehension elements and conditions, decorators and default values of '
+         'nested defs. Comprehension targets that shadow a function variable keep lambda-free elements (CPython 3.12.1 '
+         'miscompiles the generated, correct, code otherwise; DESIGN section 14). Executions on which C01 already diverges '
+         'are judged by C01 only.',
     technique='TLA+ semantics predicts operator-event sequences; embedding checked against events recorded from the converted code; AST scan of generated code',
     design_ref='DESIGN.md section 5 (C04)', engine='tlc-minipy')
 CHECKS['C17'] = dict(
@@ -138,9 +145,9 @@ CHECKS['C02'] = dict(
          're-injected before every iteration) installed on the ag__ module of a fresh transpiler, and must return the same '
          'value. The class predicate "definitely assigned before every read" is decided by the specification (no execution '
          'of the program raises within the bounds).',
-    note='The backend is an instance of the backend family the property describes, not a proof for all backends. Attribute and '
-         'constant-key state (self.attr, d[const]) and the in-TLC StateTuples invariant on the pre-control_flow tree (the '
-         '"equivalently" clause) are not generated yet. Speculative loop runs are capped (40 iterations) and such runs are '
+    note='The backend is an instance of the backend family the property describes, not a proof for all backends. Attribute '
+         'state (o.v on objects, aliases, objects shared with nested functions) is generated; constant-key state (d[const]) and '
+         'the in-TLC StateTuples invariant on the pre-control_flow tree (the "equivalently" clause) are not. Speculative loop runs are capped (40 iterations) and such runs are '
          'not judged. Bounds: loop trips <=3/4, inputs 0..2/0..3.',
     technique='TLA+ operational semantics as oracle over all inputs; converted function executed under a functional operator backend',
     design_ref='DESIGN.md section 5 (C02)', engine='tlc-minipy')
